@@ -385,7 +385,7 @@ CLAIMS["C29"] = (
     "and every previously registered password (loop invariants, any number of users; password lists of different users never share a backing "
     "array); ClearNamespaceUsers removes exactly the keys mapped to that namespace, and a user loses exactly the passwords that some removed "
     "key names -- nothing else: every other (user, password) stays, nothing new appears (nested loop invariants over the ranged key map with "
-    "its visited set and the filtered list); CloneUserManager registers exactly the same keys, namespaces and per-user password lists in "
+    "its visited set and the filtered list), and keeps the password arrays of different users apart; CloneUserManager registers exactly the same keys, namespaces and per-user password lists in "
     "fresh tables and lists (so a reload works on a faithful copy); GetNamespaceByUser returns what is registered under the pair's key and "
     "the empty name otherwise; CheckUser is membership in the user table.",
     "Trusted: strings.Split at ':' as the uninterpreted userOf / passOf, with the axiom that they invert user + ':' + password for names and "
